@@ -253,4 +253,38 @@ def runSession (globals : List String) (st : St) : List Entry → St
 
 end BeforeRepair
 
+/-! Module ids and the table of per-module caches (`Vm.emitter`, `Vm.inline_cache`), for the known
+finding DC19.1.  `laythe_vm/src/vm/source_loader.rs`: `load_missing_module` calls `self.module(..)`
+(`let id = self.emitter.emit()`), attaches the module to its parent, and only then compiles the
+file; `Vm::compile` reaches `inline_cache.push(InlineCache::new(..))` (the branch for a module whose
+id is not below `inline_cache.len()`) inside `result.map(..)`, i.e. only when the compile succeeded.
+`Vm::inline_cache()` (basic.rs) is `inline_cache.get_unchecked(current_fun.module_id())`. -/
+namespace ModuleIds
+
+structure Tbl where
+  /-- the id the next `Vm::module` hands out -/
+  nextId : Nat
+  /-- `inline_cache.len()` -/
+  caches : Nat
+  deriving DecidableEq, Repr, Inhabited
+
+/-- one `load_missing_module` whose file was found; returns the new module's id -/
+def load (compiles : Bool) (t : Tbl) : Tbl × Nat :=
+  ({ nextId := t.nextId + 1,
+     caches := if compiles then (if t.nextId < t.caches then t.caches else t.caches + 1) else t.caches },
+   t.nextId)
+
+/-- a sequence of loads (`true` = the file compiles); the ids of the modules whose code can run -/
+def loads : Tbl → List Bool → Tbl × List Nat
+  | t, [] => (t, [])
+  | t, c :: rest =>
+    let r := load c t
+    let r2 := loads r.1 rest
+    (r2.1, if c then r.2 :: r2.2 else r2.2)
+
+/-- the unchecked index of `Vm::inline_cache()` is inside the vector -/
+def inRange (t : Tbl) (id : Nat) : Bool := id < t.caches
+
+end ModuleIds
+
 end LaytheVerif.Repl
